@@ -21,7 +21,7 @@ class FeatureView:
         return getattr(self._an, k)
 
 
-FEATURES = ("none", "bigdecimal", "chrono", "uuid")
+FEATURES = ("none", "bigdecimal", "chrono_bigdecimal", "uuid")
 
 
 def _retag(rep, start, suffix):
@@ -121,9 +121,9 @@ def generate_family(limit=700):
                         break
                     n += 1
                     name = "G%d" % n
+                    out.append("#[derive(BinaryCodec)]")
                     if hist:
                         out.append("#[evolution(%s)]" % ", ".join(hist))
-                    out.append("#[derive(BinaryCodec)]")
                     out.append("pub struct %s {" % name)
                     for f in fields:
                         if f["transient"]:
@@ -146,9 +146,9 @@ def generate_family(limit=700):
                         continue
                     en += 1
                     name = "E%d" % en
+                    out.append("#[derive(BinaryCodec)]")
                     if sorted_:
                         out.append("#[sorted_constructors]")
-                    out.append("#[derive(BinaryCodec)]")
                     out.append("pub enum %s {" % name)
                     names = ["Zed", "Alpha", "Mike", "Bravo"]
                     for i, sh in enumerate(combo):
